@@ -38,10 +38,7 @@ import (
 	"pgregory.net/rapid"
 )
 
-const c36Rule = "scenario = hand-made genesis + 4-12 imported blocks (forks below the finalised head, state changed by 0-4 puts/deletes per block and written with StoreTrie, " +
-	"optional GRANDPA scheduled/forced change digest, optional BABE NextEpochData digest) + 1-4 finalisations with increasing (set id, round) + the finalisation handler; " +
-	"one evaluation = one crash point = one prefix length i of the post-initialisation write log (ALL i of every scenario are enumerated), replayed into a fresh database and restarted with Service.Start; " +
-	"non-trivial = the prefix ends strictly inside an operation (import / finalise / finalisation-handler), i.e. op.start < i < op.end; distinct by (scenario, i)"
+const c36Rule = "scenario = hand-made genesis + 4-12 imported blocks (forks below the finalised head, state changed by 0-4 puts/deletes per block and written with StoreTrie, optional GRANDPA scheduled/forced change digest, optional BABE NextEpochData digest) + 1-4 finalisations with increasing (set id, round) + the finalisation handler; one evaluation = one crash point = one prefix length i of the post-initialisation write log (ALL i of every scenario are enumerated, nothing is sampled inside a scenario), replayed into a fresh database and (phase 1) restarted with Service.Start and judged, then (phase 2, also at EVERY crash point) the scenario is carried on on the restarted service as a node would (lost blocks imported again, interrupted and later finalisations issued again), the database is restarted a SECOND time and judged again (head = last finalisation of the scenario, whole finalised chain readable); non-trivial = the prefix ends strictly inside an operation (import / finalise / finalisation-handler), i.e. op.start < i < op.end; distinct by (scenario, i)"
 
 func init() {
 	logger.Patch(log.SetLevel(log.Critical), log.SetWriter(io.Discard))
@@ -889,7 +886,8 @@ func (s *c36Scenario) describe() string {
 }
 
 // continueAt says for which crash points the scenario is carried on after the restart and restarted a second
-// time: every crash point strictly inside an operation, and every c36BoundaryStride-th boundary crash point.
+// time. With stride 1 that is every crash point (nothing is sampled); a larger stride keeps every crash point
+// strictly inside an operation and every stride-th boundary crash point.
 const c36BoundaryStride = 1
 
 func (s *c36Scenario) continueAt(i int, e c36Expect) bool {
